@@ -60,6 +60,7 @@ def evaluate(case) -> Result:
         mode_of = {}
         w.behaviour_fn = lambda rec: mode_of.get(rec["hbh"], "answer")
         repeats = evictions = reconnects = 0
+        per_conn = {}
         answers_per_origin = collections.Counter({hosts[0]: 1, hosts[1]: 1 if len(conns) > 1 else 0})
 
         def absorb():
@@ -70,7 +71,7 @@ def evaluate(case) -> Result:
                 for f in out[seen_out[ci]:]:
                     if f.is_request:
                         continue
-                    info = req_origin.get(f.h["hbh"])
+                    info = req_origin.get((ci, f.h["hbh"]))
                     if info is None:
                         continue
                     origin, e2e, _ = info
@@ -87,12 +88,21 @@ def evaluate(case) -> Result:
                 ci = ci % len(conns)
                 origin = hosts[oi % 2]
                 hbh += 1
+                if case.get("per_conn_hbh"):
+                    # hop-by-hop identifiers are chosen per connection: two connections may use the same values
+                    per_conn[ci] = per_conn.get(ci, 0x4000) + 1
+                    # ... but not a (hop-by-hop, end-to-end) pair that is pending on another connection: answers to
+                    # such requests are misrouted (known finding of C09, see KNOWN_FINDINGS.txt)
+                    while any(r.get("_ci") != ci and r["hbh"] == per_conn[ci] and r["e2e"] == e2e for r in held):
+                        per_conn[ci] += 1
+                        res.classes.append("excluded:equal-id-pair-pending-elsewhere")
+                    hbh = per_conn[ci]
                 in_window = e2e in window[origin]
                 expect_reject = bool(T) and in_window
                 if T and in_window:
                     repeats += 1
                 mode_of[hbh] = mode
-                req_origin[hbh] = (origin, e2e, ci)
+                req_origin[(ci, hbh)] = (origin, e2e, ci)
                 n_seen = len(w.requests_seen)
                 w.feed_msg(conns[ci], {"k": "REQ", "host": origin, "hbh": hbh, "e2e": e2e, "T": bool(T)})
                 w.advance(1)
@@ -115,6 +125,7 @@ def evaluate(case) -> Result:
                     elif len(delivered) > 1:
                         res.v("C17/delivered-twice", desc)
                 if delivered and mode == "hold":
+                    delivered[0]["_ci"] = ci
                     held.append(delivered[0])
                 absorb()
             elif kind == "ANSWER":
@@ -129,14 +140,16 @@ def evaluate(case) -> Result:
                 c = conns[ci]
                 if ev[2] == "dpr":
                     hbh += 1
-                    req_origin[hbh] = (hosts[ci], hbh, ci)
+                    req_origin[(ci, hbh)] = (hosts[ci], hbh, ci)
                     w.feed_msg(c, {"k": "DPR", "host": hosts[ci], "hbh": hbh, "e2e": hbh})
                     absorb()
                 w.peer_close(c)
-                held[:] = [r for r in held if req_origin.get(r["hbh"], (None, None, None))[2] != ci]
+                held[:] = [r for r in held if r.get("_ci") != ci]
                 hbh += 1
                 conns[ci] = w.handshake_in(hosts[ci], auth=[4], ip=f"10.1.1.{ci + 1}", hbh=hbh)
-                req_origin[hbh] = (hosts[ci], hbh, ci)
+                for key_ in [k_ for k_ in req_origin if k_[0] == ci]:
+                    del req_origin[key_]            # a new connection: its hop-by-hop numbering starts afresh
+                req_origin[(ci, hbh)] = (hosts[ci], hbh, ci)
                 seen_out[ci] = 0
                 reconnects += 1
                 absorb()
@@ -144,7 +157,7 @@ def evaluate(case) -> Result:
                 ci = ev[1] % len(conns)
                 hbh += 1
                 origin = hosts[ci]
-                req_origin[hbh] = (origin, hbh, ci)
+                req_origin[(ci, hbh)] = (origin, hbh, ci)
                 w.feed_msg(conns[ci], {"k": "DWR", "host": origin, "hbh": hbh, "e2e": hbh})
                 absorb()
         if W.monitor_threads(w):
@@ -171,7 +184,7 @@ def shard_main(shard, nshards, tier, scale):
 
     @st.composite
     def cases(draw):
-        return {"window": draw(st.integers(1, 4)), "two_conns": draw(st.booleans()),
+        return {"window": draw(st.integers(1, 4)), "two_conns": draw(st.booleans()), "per_conn_hbh": draw(st.booleans()),
                 "app_kind": draw(st.sampled_from(["basic", "basic", "threading"])),
                 "seed": draw(st.integers(0, 3)),
                 "events": [list(e) for e in draw(st.lists(ev, min_size=1, max_size=12))]}
